@@ -67,7 +67,7 @@ def run(res, f, tier):
                 calls = [e for e in s_.events if e[0] == "call" and short_callee(e[1]) == EV]
                 ret = show(norm(it_.resolve(s_, rv_)))
                 conds = [norm_cond(c) for c in s_.conds]
-                ok = len(calls) == 1 and ret.startswith("await(%s(" % EV) and show(norm(calls[0][2][0])) in ("self", names[0]) and not conds
+                ok = len(calls) == 1 and ret.startswith("await(%s(" % EV) and any(show(norm(a_)) in ("self", names[0]) for a_ in calls[0][2]) and not conds
                 if not ok:
                     bad.append({"when": ["%s %s" % c for c in conds][:4], "evaluator_calls": len(calls), "result": ret[:200]})
             if bad:
